@@ -364,7 +364,7 @@ func c09Page(x *mc.Exec) {
 	} else {
 		sel = []string{"zz", "b", "b"} // unknown and repeated ids
 	}
-	fi := x.Choose(5, "filter")
+	fi := x.Choose(8, "filter")
 	var filter *j.Filter
 	var keep func(c09Item) bool
 	switch fi {
@@ -380,6 +380,17 @@ func c09Page(x *mc.Exec) {
 	case 4:
 		filter = &j.Filter{Op: "and", Val: []*j.Filter{}}
 		keep = func(it c09Item) bool { return true }
+	case 5:
+		// an empty "or" allows nothing
+		filter = &j.Filter{Op: "or", Val: []*j.Filter{}}
+		keep = func(it c09Item) bool { return false }
+	case 6:
+		// an unknown operator allows nothing
+		filter = &j.Filter{Field: "k", Op: "~", Val: 1}
+		keep = func(it c09Item) bool { return false }
+	case 7:
+		filter = &j.Filter{Op: "and", Val: []*j.Filter{{Op: "or", Val: []*j.Filter{}}, {Field: "k", Op: "=", Val: 1}}}
+		keep = func(it c09Item) bool { return false }
 	}
 	rules := [][]string{{}, {"k", "id"}, {"-s", "-id"}, {"k"}}[x.Choose(4, "rules")]
 	sizes := []uint{0, 1, 2, uint(n), uint(n) + 1, math.MaxInt64, 1 << 63, math.MaxUint64, 3}
@@ -560,6 +571,8 @@ func c09Sequence(x *mc.Exec) {
 	d := c09TypeD(kInt)
 	itemsA := []c09Item{{"a", 3, "m"}, {"b", 1, "m"}, {"c", 2, "z"}, {"d", 1, "a"}, {"e", 0, "q"}}
 	itemsB := []c09Item{{"b0", 9, "m"}, {"b1", 8, "m"}, {"b2", 7, "z"}, {"b3", 6, "a"}}
+	// ids made of digits (and one that is not): ids are strings, ordered as strings
+	itemsN := []c09Item{{"9", 1, "m"}, {"10", 1, "m"}, {"100", 2, "z"}, {"2", 1, "a"}, {"a1", 0, "q"}, {"010", 1, "m"}}
 	type call struct {
 		name  string
 		items []c09Item
@@ -581,8 +594,10 @@ func c09Sequence(x *mc.Exec) {
 		{"B page 0 of 2", itemsB, []string{"k"}, 2, 0, nil},
 		{"A page 0 of 3", itemsA, []string{"s", "id"}, 2, 0, nil},
 		{"B empty page", itemsB, nil, 3, 5, nil},
+		{"N whole by id", itemsN, []string{"id"}, 10, 0, nil},
+		{"N by k then -id, page 1 of 2", itemsN, []string{"k", "-id"}, 2, 1, nil},
 	}
-	colA, colB := c09Collection(impl, d, itemsA), c09Collection(impl, d, itemsB)
+	colA, colB, colN := c09Collection(impl, d, itemsA), c09Collection(impl, d, itemsB), c09Collection(impl, d, itemsN)
 	var pages []j.Collection
 	var wants [][]string
 	desc := c09Impls[impl] + ":"
@@ -591,6 +606,9 @@ func c09Sequence(x *mc.Exec) {
 		col := colA
 		if &c.items[0] == &itemsB[0] {
 			col = colB
+		}
+		if &c.items[0] == &itemsN[0] {
+			col = colN
 		}
 		var page j.Collection
 		arg := append([]string{}, c.rules...)
@@ -627,7 +645,7 @@ func c09Sequence(x *mc.Exec) {
 func init() {
 	Register(&Prop{
 		ID: "C09",
-		Rule: "Engine A, all choices Full: (a) 28 kinds x 4 collection implementations (SoftCollection, WrapperCollection, Resources of soft / of wrapped resources) x every assignment of a 3-value alphabet of the kind (incl. nil for nullable kinds, values above 2^63 for uint64, for the 64-bit kinds a 5-value alphabet with 2^53 / 2^53+1 and MaxInt64 / MaxInt64-1, which collide as float64, byte strings [1 2]/[2 1]/[1 2 3], ties) to 3 (thorough 4) resources x all 31 rule lists of length <= 2 over {k,-k,s,id,-id} (incl. the empty list) and, inside each case, ALL initial orders of the collection and page sizes 1, 2, n with every page number; (b) 4 implementations x n in 0..4 x every ID subset (+ unknown/repeated ids) x 5 filters x 4 rule lists x 9 sizes (0,1,2,n,n+1,2^63-1,2^63,2^64-1,3) x 5 page numbers with number*size < 2^63. (d) 14-resource collections (beyond the 12-element insertion-sort threshold of sort.Sort) for 28 kinds x 4 implementations x 31 rule lists x 18 structured initial orders; (c) every sequence of 3 Range calls from a menu of 8 (two collections, several page geometries, rule lists that are prefixes of one list the caller keeps) with all results retained and read only at the end. Oracle: independent select / filter / comparator (nil first, '-' reverses, later rules break ties) / slice; exact ID sequence and independence from the initial order when the rules contain id, otherwise sortedness + partition + page lengths; result non-nil, no panic, input collection unchanged. Non-trivial = every sort case; page cases that are neither empty nor complete",
+		Rule: "Engine A, all choices Full: (a) 28 kinds x 4 collection implementations (SoftCollection, WrapperCollection, Resources of soft / of wrapped resources) x every assignment of a 3-value alphabet of the kind (incl. nil for nullable kinds, values above 2^63 for uint64, for the 64-bit kinds a 5-value alphabet with 2^53 / 2^53+1 and MaxInt64 / MaxInt64-1, which collide as float64, byte strings [1 2]/[2 1]/[1 2 3], ties) to 3 (thorough 4) resources x all 31 rule lists of length <= 2 over {k,-k,s,id,-id} (incl. the empty list) and, inside each case, ALL initial orders of the collection and page sizes 1, 2, n with every page number; (b) 4 implementations x n in 0..4 x every ID subset (+ unknown/repeated ids) x 8 filters (incl. the empty and / or groups and an unknown operator) x 4 rule lists x 9 sizes (0,1,2,n,n+1,2^63-1,2^63,2^64-1,3) x 5 page numbers with number*size < 2^63. (d) 14-resource collections (beyond the 12-element insertion-sort threshold of sort.Sort) for 28 kinds x 4 implementations x 31 rule lists x 18 structured initial orders; (c) every sequence of 3 Range calls from a menu of 10 (three collections, one with ids made of digits, several page geometries, rule lists that are prefixes of one list the caller keeps) with all results retained and read only at the end. Oracle: independent select / filter / comparator (nil first, '-' reverses, later rules break ties) / slice; exact ID sequence and independence from the initial order when the rules contain id, otherwise sortedness + partition + page lengths; result non-nil, no panic, input collection unchanged. Non-trivial = every sort case; page cases that are neither empty nor complete",
 		Harnesses: []Harness{
 			{Name: "C09/sort", Body: c09Sort},
 			{Name: "C09/page", Body: c09Page},
